@@ -469,7 +469,7 @@ def visgroup_descs(cfg: GenConfig = DEFAULT):
     return st.recursive(
         leaf,
         lambda kids: st.fixed_dictionaries({
-            'name': any_text(cfg), 'id': ids(1, 40), 'color': colors(), 'children': st.lists(kids, max_size=3),
+            'name': any_text(cfg), 'id': ids(1, 40), 'color': colors(), 'children': st.lists(kids, min_size=1, max_size=3),
         }),
         max_leaves=6,
     )
